@@ -42,11 +42,14 @@ def setup(tier):
 def gen_forces(rng, a, b, nmax=6):
     n = int(rng.integers(0, nmax + 1))
     out = []
+    # force magnitudes: usually 0.1 .. 1000, sometimes tiny or huge (another unit system): nothing in the chain may depend on
+    # the absolute size of the loads
+    big = float(10 ** rng.uniform(-13, 8)) if rng.random() < 0.25 else 1.0
     for _ in range(n):
         k = rng.random()
         x = float(rng.uniform(0, a)) if k < 0.7 else float(rng.choice([0., a]))
         y = float(rng.uniform(0, b)) if rng.random() < 0.7 else float(rng.choice([0., b]))
-        f = [float(v) for v in rng.normal(size=3) * 10 ** rng.uniform(-1, 3)]
+        f = [float(v) for v in rng.normal(size=3) * 10 ** rng.uniform(-1, 3) * big]
         if rng.random() < 0.2:
             f[int(rng.integers(0, 3))] = 0.0
         out.append([x, y] + f)
@@ -125,8 +128,9 @@ def case_matrix(rng, tier):
     Ka = eig.random_spd(rng, na, 10 ** rng.uniform(1, 8), band=int(rng.integers(1, 5)) if rng.random() < 0.4 else None)
     us = gen.unit_scale(rng)
     K = sp.csr_matrix(eig.embed(Ka, n, act) * us)
-    f1 = rng.normal(size=n); f2 = rng.normal(size=n)
-    c = Case({'obj': 'matrix', 'n': n, 'n_active': na, 'unit_scale': us})
+    fs = float(10 ** rng.uniform(-14, 8)) if rng.random() < 0.4 else 1.0      # load magnitude independent of the stiffness magnitude
+    f1 = rng.normal(size=n) * fs; f2 = rng.normal(size=n) * fs
+    c = Case({'obj': 'matrix', 'n': n, 'n_active': na, 'unit_scale': us, 'load_scale': fs})
     c.tag('obj:matrix', 'nullcols' if na < n else 'full')
     K0 = K.copy(); f1b = f1.copy()
     x1 = solve(K, f1, silent=True)
